@@ -284,6 +284,27 @@ class Stdlib:
                     return I.call_repo(m, [key], {}, self_obj=cont)
         if isinstance(cont, ConcreteIter):
             return cont.items[key]
+        from .models_np import WhereResult as _WR
+        if isinstance(cont, _WR):
+            # np.where(cond)[0][0]: the FIRST index at which cond holds; IndexError when cond holds nowhere (AX-NP-WHERE)
+            k = untag(key)
+            if not (isinstance(k, int) and k == 0):
+                raise Unsupported('np.where(...)[0][k] for k != 0', node)
+            c = cur()
+            cond = cont.cond
+            n = cond.shape[0]
+            import z3 as _z3
+            j = _z3.Int(c._name('wj'))
+            none = _z3.ForAll([j], _z3.Implies(_z3.And(j >= 0, j < zint(n)), _z3.Not(zbool(cond.fn((mk_int(j),))))))
+            if c.choose(2, 'np.where: some index / none') == 1:
+                c.assume_raw(none)
+                raise PyRaise('IndexError', 'index 0 is out of bounds for axis 0 with size 0')
+            first = c.fresh_int('first')
+            c.assume_raw(_z3.And(first >= 0, first < zint(n)))
+            c.nonneg_ids.add(first.get_id())
+            c.assume_raw(zbool(cond.fn((mk_int(first),))))
+            c.assume_raw(_z3.ForAll([j], _z3.Implies(_z3.And(j >= 0, j < first), _z3.Not(zbool(cond.fn((mk_int(j),)))))))
+            return mk_int(first)
         if isinstance(cont, NP.MaskedArray) and (is_intlike(untag(key)) if 'is_intlike' in globals() else True):
             k = untag(key)
             n = mk_int(cont.count)
